@@ -235,6 +235,7 @@ fn build_graphs(l: &Sx, next_node: i128) -> Result<Vec<Graph>, BuildErr> {
 }
 
 /// state with an empty world: no node id fixed (next_node = 1)
+#[allow(dead_code)]
 pub fn sx_to_state(s: &Sx) -> Option<PushState> { sx_to_state_at(s, 1).ok() }
 
 pub fn sx_to_state_at(s: &Sx, next_node: i128) -> Result<PushState, BuildErr> {
